@@ -1744,6 +1744,7 @@ func (p *parser) domainTextLitEx(off, end token.Pos) *ast.DomainTextLitEx {
 		sp.next()
 	}
 	sp.expect(token.SEMICOLON)
+	p.errors = append(p.errors, sp.errors...)
 	return &ast.DomainTextLitEx{
 		Args:   args,
 		RawPos: sp.pos,
